@@ -13,6 +13,7 @@ EXPLANATION = ("Proportions n_i > 0 and the common scale c > 0 are solver variab
                "(np.sum over object lists, Quantity division). z3 proves sum x = 100, sum X = 100, x_i n_j = x_j n_i, X_i n_j m_j = X_j n_i m_i with m_i the component mass, "
                "invariance under n -> c n, and that a material rebuilt from the symbolic mass fractions reports the same x and X.")
 ASSUMPTIONS = matkit.MAT_STUB_TEXT + [
+    "a division by a term that may be zero forks; on the zero side the library's own ZeroDivisionError propagates and is reported (no denominator is assumed away)",
     "proportions are positive reals",
     "component masses m_i are read back from the built object for the proportionality identity and separately compared (1e-9) with the isotope-table oracle",
     "tolerance claims (1e-9 relative) are posed as two abs-free polynomial queries; rational terms are cleared by z3",
